@@ -29,6 +29,13 @@ def check(ctx):
     framing_premise(ctx, 'R-FRAME', 'an acknowledgement that is mis-framed fires the wrong publish request, or none')
     # "only when a PUBACK / PUBCOMP for its packet identifier arrives": the identifier names ONE unfinished exchange only if the
     # allocator never hands out one that is still in use (C17's rules)
+    # "the identifier exposed on the Deferred, the identifier on the wire and the value passed to the callback are the same number":
+    # the identifier on the wire is the one the broker reads, which is msgId only if the PUBLISH is encoded as prescribed (a length
+    # prefix that is short by a byte moves the identifier field) - the encoders' side of C02
+    from .c02 import wire_premise
+    wire_premise(ctx, "R-WIRE", "the broker reads the packet identifier of a PUBLISH from another place than the client put it: it "
+                 "acknowledges an identifier the client never issued, and the Deferred does not fire on its own acknowledgement",
+                 only=lambda f: f.rule in ("S2", "S3", "S5", "S8") and (f.construct.startswith("mqtt.pdu.PUBLISH") or f.construct.startswith("mqtt.pdu.encode")))
     from .common import run_premise
     run_premise(ctx, "C17", "R-IDS", "identifiers", "an identifier names at most one unfinished exchange",
                 "two unfinished publishes share an identifier: the acknowledgement of one settles the other, which then succeeds without "
